@@ -57,6 +57,18 @@ walkers) of 0/1..4 (thorough 5) distinct Text / Edit items with the focus on eve
 without focus, all canvases held) and inside a LineBox (only the latest rendering held, as a Screen): render, ONE list edit,
 render.
 
+Every child is a dependency, whatever else the cache holds: whether a container's canvas is cached and which widgets it is
+registered with is decided when it is stored, from what the cache holds at that moment (the children's canvases, or the
+widgets the container names itself - the columns a Columns could not show).  A second deterministic sweep (_dep_sweep,
+exhaustive 'dependencies') therefore varies the history BEFORE a change: small Pile (flow / box), GridFlow, ListBox (both
+walkers), Frame and Columns with every assignment of GIVEN / PACK / WEIGHT to 1..3 (thorough 4) columns, focus on the first or
+last child, bare (all canvases held) or inside a LineBox (latest rendering held); rendered at the size that shows every child or
+at a narrower one that leaves children out (hidden columns, items outside the window); over a cold cache, after every node
+was rendered on its own, or after the root was rendered at another size; then render, change leaf i, render, change leaf j,
+render at the same size and focus (every ordered pair with texts of about the old width; leaf i made to wrap or emptied, then
+i again or its neighbour refilled).  The first histories of the Hypothesis campaign are run once more over a warm cache
+(case["warm"]: every node below the root rendered on its own before the first root rendering).
+
 After every op the root is rendered in both worlds at the
 current view (size, focus) and compared:
 
@@ -145,6 +157,12 @@ RULE = (
     "{Pile flow, Pile box, Columns, GridFlow, ListBox on SimpleFocusListWalker / SimpleListWalker} x length 0|1..4 (5 thorough) of distinct Text/Edit items x every focus "
     "position x {bare root rendered focused, bare unfocused (hold all), inside a LineBox (hold last)} x every list method x its whole argument domain for that length "
     "(all i<=j, every sort order (<=24 quick, 120 thorough; 6 when unfocused) and reverse=True with the first six keys, all extended slices, all swaps): render, one list edit, render. "
+    "Second sweep (exhaustive 'dependencies', ~32000 hist cases quick): {Pile flow, Pile box, GridFlow, ListBox x2 walkers of 1..4 (5 thorough) Text/Edit leaves, Frame "
+    "(header, body, footer), Columns of 1..3 (4 thorough) columns x every assignment of GIVEN 4 / PACK / WEIGHT 1 to the columns} x focus on the first | last child x "
+    "{bare, hold all | inside a LineBox, hold last} x {size showing every child | narrower sizes that leave children out} x cache population {cold | every node rendered "
+    "on its own first | root rendered at another size first} x {render, change leaf i, render, change leaf j, render: all ordered pairs (i, j) with short texts; i made "
+    "to wrap or emptied, then i or its neighbour set to a short text}. After the Hypothesis campaign its first 100 (1000 thorough) histories run again with case['warm']: "
+    "every node below the root rendered on its own (first recurring size, unfocused, canvases held) before the first root rendering. "
     "Oracle after every op: root rendering of A == B (content runs, cursor), rows equal, confirmed on the same "
     "tree; every held canvas (and every finalized canvas below it) unchanged; canvas mutators raise. Non-trivial: a mutation of a strict descendant of the "
     "root (or a list edit of the root's own contents / walker) is followed by the comparison render of the root at a (size, focus) that was rendered before the "
@@ -170,6 +188,8 @@ ASSUMPTIONS = [
     "C01) is discarded",
     "CPython reference counting: canvases are released when the harness drops them (plus gc.collect(1): young "
     "generations only, a full collection costs 0.3 s per call under Hypothesis' heap; canvases form no cycles)",
+    "rendering any node of the tree on its own at a recurring size (warm-up, op 'render') is a call an application may make (Widget.render is public; "
+    "the widget must support the sizing mode of its slot itself); a node whose render raises in both worlds during the warm-up is skipped",
     "a twin difference that the same tree does not show (A cached == A re-rendered without the cache) is state "
     "drift caused by render() side effects skipped on a cache hit; the statement is read as silent about it",
 ]
@@ -1587,6 +1607,23 @@ class Run:
                         pw.original_widget = new
                     break
 
+    def warm_up(self):
+        """case["warm"]: before the first root rendering every node below the root is rendered on its own (first
+        recurring size, no focus; the canvases are held as all others are).  The cache then holds canvases of widgets that
+        a root rendering does not display (hidden columns, list items outside the window, an unfocused part) - what
+        CanvasCache.store sees when it decides whether and with which dependencies the ancestors' canvases are cached.
+        A node that cannot be rendered at that size on its own (both worlds raise) is skipped."""
+        n = 1
+        while n < len(live_nodes(self.A.root, self.mode)):
+            try:
+                self.step("render", ["~render", n, 0, False], 0)
+            except _Stop as s:
+                if str(s) == "twins-diverged":
+                    raise
+                self.trace.append("(raised in both worlds: skipped)")
+            n += 1
+        _count("history:warm-cache")
+
     def run(self):
         spec = self.case["spec"]
         self.A.root = build_spec(spec, self.enc, self.A.rec)
@@ -1599,6 +1636,8 @@ class Run:
                     raise
                 raise _Stop(type(e).__name__) from None
             self.instrument()
+            if self.case.get("warm"):
+                self.warm_up()
             self.check_view("init")
             for ser, op in enumerate(self.case["ops"]):
                 kind = op[0]
@@ -2030,6 +2069,88 @@ def _list_sweep(max_n, max_perms):
                                "ops": [["list", 0, m, b, c]] if vfocus else [["view", 0, False], ["list", 0, m, b, c]]}
 
 
+# ---------------------------------------------------------------------------------------------
+# deterministic sweep: every child is a dependency of every rendering of its container, whatever else the cache holds
+#
+# "A change to any widget is therefore visible in the next rendering of every ancestor that displays it."  Whether a
+# container's canvas is cached, and which widgets it is registered with, is decided when it is stored - from what the
+# cache holds at that moment (CanvasCache.store looks at the canvases of the children, or at the widgets the container
+# names itself, e.g. the columns a Columns could not show).  So the history BEFORE the change matters: which widgets
+# already have a canvas (also those the rendering at hand does not display), and whether an earlier change has already
+# used up the registrations of the first rendering.  The sweep covers, for small containers of every kind:
+#   per-item options    Columns: every assignment of GIVEN / PACK / WEIGHT to its columns
+#   size                the widest size shows every child, the narrower ones leave children out (columns hidden on the
+#                       side away from the focus, list items outside the window, grid cells wrapped)
+#   cache population    cold | every node rendered on its own first | the root rendered at another size first
+#   change              render, change leaf i, render, change leaf j, render (same size and focus throughout, the old
+#                       canvases still referenced or, under a LineBox, released as a Screen does): every ordered pair
+#                       (i, j) with texts of about the old width; i made to wrap / emptied, then i again or its neighbour
+
+DEP_WARM = ["cold", "each-node-rendered-alone", "other-size-first"]
+DEP_CHANGES = [("short", 1, 1), ("long", 2, 1), ("emptied-refilled", 0, 1)]  # (label, b of the first change, b of the second)
+
+
+def _dep_leaf(i, text_only=False):
+    s = "abcde"[i % 5] * (2 + 2 * (i % 2))  # aa bbbb cc dddd ee
+    if i % 2 and not text_only:
+        return {"cls": "Edit", "caption": "", "text": s, "multiline": False, "align": "left", "wrap": "space", "pos": 0}
+    return _text_spec(s)
+
+
+def _dep_trees(max_n, max_cols):
+    """(kind, root mode, spec, sizes - widest first) of small containers whose leaves are distinct Text / Edit widgets"""
+    fill = lambda x: {"cls": "Filler", "w": x, "height": "pack", "valign": "top", "min_height": None, "top": 0, "bottom": 0}  # noqa: E731
+    for n in range(1, max_n + 1):
+        leaves = [_dep_leaf(i) for i in range(n)]
+        for f in sorted({0, n - 1}):
+            yield "pile", "flow", {"cls": "Pile", "items": [{"opt": ["pack", None], "w": x} for x in leaves], "focus": f}, [[14, 6], [5, 2]]
+            yield "pile-box", "box", {"cls": "Pile", "items": [{"opt": ["weight", 1], "w": fill(x)} for x in leaves], "focus": f}, [[14, 8], [5, 5]]
+            yield "gridflow", "flow", {"cls": "GridFlow", "cells": leaves, "cell_width": 5, "h_sep": 1, "v_sep": 0, "align": "left", "focus": f}, [[24, 6], [7, 2]]
+            for walker in ("SimpleFocusListWalker", "SimpleListWalker"):
+                yield "listbox", "box", {"cls": "ListBox", "items": leaves, "focus": f, "walker": walker}, [[14, 6], [5, 2]]
+    opts = {"given": ["given", 4], "pack": ["pack", None], "weight": ["weight", 1]}
+    for n in range(1, max_cols + 1):
+        assignments = [[]]
+        for _ in range(n):
+            assignments = [[*a, o] for a in assignments for o in opts]
+        for a in assignments:
+            for f in sorted({0, n - 1}):
+                items = [{"opt": opts[o], "w": _dep_leaf(i, text_only=o == "pack"), "box": False} for i, o in enumerate(a)]
+                # a column takes at most 4 cells + 1 divider: room for all / for all but one / (three or more columns) for one
+                sizes = [[8, 3], [3, 3]] if n == 1 else [[5 * n + 3, 3], [5 * (n - 1), 3], [6, 3]][: min(n, 3)]
+                yield "columns:" + "+".join(a), "flow", {"cls": "Columns", "items": items, "dividechars": 1, "min_width": 1, "focus": f}, sizes
+    for part in ("body", "header", "footer"):
+        yield "frame", "box", {"cls": "Frame", "body": fill(_dep_leaf(1)), "header": _dep_leaf(0), "footer": _dep_leaf(2), "focus_part": part}, [[14, 6], [5, 4]]
+
+
+def _dep_sweep(max_n, max_cols):
+    box = lambda x: {"cls": "LineBox", "w": x, "title": "", "title_align": "center", "drop": []}  # noqa: E731
+    for kind, mode, tree, sizes in _dep_trees(max_n, max_cols):
+        for wrap in (False, True):
+            spec = box(tree) if wrap else tree
+            specs = list(_walk(spec))
+            leaves = [k for k, s in enumerate(specs) if s["cls"] in ("Text", "Edit")]
+            sz = [[w + 2, h + 2] for w, h in sizes] if wrap else sizes  # the LineBox takes a cell on every side
+            for m in range(len(sz)):
+                other = 0 if m else len(sz) - 1
+                for warm in DEP_WARM:
+                    if warm == "other-size-first":
+                        if other == m:
+                            continue
+                        order, pre = [sz[other], sz[m]], [["view", 1, True]]
+                    elif warm == "each-node-rendered-alone":
+                        order, pre = [sz[m], sz[other]], [["~render", k, 0, False] for k in range(1, len(specs))] + [["view", 0, True]]
+                    else:
+                        order, pre = [sz[m], sz[other]], []
+                    for x, i in enumerate(leaves):
+                        for label, b1, b2 in DEP_CHANGES:
+                            # second change: every leaf after a width-keeping change, the same leaf and its neighbour otherwise
+                            for j in leaves if label == "short" else sorted({i, leaves[(x + 1) % len(leaves)]}):
+                                yield {"enc": "utf-8", "mode": mode, "spec": spec, "sizes": order, "hold": "last" if wrap else "all", "plant": [],
+                                       "ops": [*pre, ["mut", i, 0, b1, 0], ["mut", j, 0, b2, 0]],
+                                       "sweep": f"{kind.split(':')[0]}:{warm}:{label}"}
+
+
 def shard(ctx):
     global _CTX
     _CTX = ctx
@@ -2038,8 +2159,18 @@ def shard(ctx):
                   classify=lambda c: [f"sweep:list:{LIST_METHODS[c['ops'][-1][2]]}"], exhaustive_name="list-methods")
         if ctx.failure is not None:
             return
+        ctx.sweep("hist", _dep_sweep(ctx.scale(4, 5), ctx.scale(3, 4)), nontrivial=lambda c: False,
+                  classify=lambda c: [f"sweep:deps:{c['sweep']}"], exhaustive_name="dependencies")
+        if ctx.failure is not None:
+            return
         ctx.given("hist", _cases(ctx.scale(3, 4), ctx.scale(25, 60)), ctx.scale(500, 5000),
                   nontrivial=lambda c: False, classify=_classes)
+        if ctx.failure is not None:
+            return
+        # the first histories of that campaign once more (same seed, same strategy), over a warm cache: every node is
+        # rendered on its own before the first root rendering (Run.warm_up)
+        ctx.given("hist", _cases(ctx.scale(3, 4), ctx.scale(25, 60)).map(lambda c: {**c, "warm": True}), ctx.scale(100, 1000),
+                  nontrivial=lambda c: False, classify=lambda c: ["warm-cache-campaign"])
     finally:
         _CTX = None
 
